@@ -10,7 +10,8 @@ from .interp import exc_is, LoopCtx
 
 def _simple_expr(e):
     for n in ast.walk(e):
-        if isinstance(n, (ast.Call, ast.Yield, ast.YieldFrom, ast.Lambda, ast.ListComp, ast.DictComp, ast.GeneratorExp, ast.SetComp, ast.Await, ast.NamedExpr)):
+        if isinstance(n, (ast.Call, ast.Yield, ast.YieldFrom, ast.Lambda, ast.ListComp, ast.DictComp, ast.GeneratorExp, ast.SetComp, ast.Await, ast.NamedExpr,
+                          ast.Dict, ast.List, ast.Set, ast.Subscript)):
             return False
     return True
 
